@@ -34,7 +34,7 @@ class Compiled:
             pass
 
 
-def compile_files(files: Dict[str, str], opts=(), tag="s", descriptor_only=False, order=None) -> Compiled:
+def compile_files(files: Dict[str, str], opts=(), tag="s", descriptor_only=False, order=None, extra_env=None) -> Compiled:
     """Write the .proto files, run protoc (+ plugin unless descriptor_only). rc != 0 with fds None = protoc rejected.
     order: the order of the files on protoc's command line - None / "sorted", "reversed", or an int (rotation of the
     sorted list); protoc hands the plugin the files dependencies first, otherwise in this order."""
@@ -45,7 +45,7 @@ def compile_files(files: Dict[str, str], opts=(), tag="s", descriptor_only=False
     for name, text in files.items():
         p = os.path.join(src, name)
         os.makedirs(os.path.dirname(p), exist_ok=True)
-        with open(p, "w") as fh:
+        with open(p, "w", encoding="utf-8") as fh:
             fh.write(text)
     names = sorted(files)
     order = order or getattr(files, "order", None)
@@ -69,7 +69,7 @@ def compile_files(files: Dict[str, str], opts=(), tag="s", descriptor_only=False
     if descriptor_only:
         return c
     # 2. the plugin
-    cp = build.run_protoc(src, names, out, None, opts)
+    cp = build.run_protoc(src, names, out, None, opts, extra_env=extra_env)
     c.rc, c.stderr = cp.returncode, cp.stderr
     return c
 
